@@ -319,6 +319,7 @@ reg("C02", runner="sync", needs_cli=True, rule=_ATTACK_RULE, diffs=_ATTACK_DIFF,
              204: "channel closed before every started hit delivered its result", 205: "more than one Stop call reported that it initiated the stop",
              206: "a goroutine of the attack was left behind", 207: "the attack panicked", 208: "the attack did not end after Stop with completing responses and a draining consumer",
              209: "a Stop call after the end reported that it initiated the stop",
+             210: "a result the caller kept changed afterwards (delivered results share storage)",
              250: "the attack command, interrupted once, did not end by itself with status 0",
              251: "the attack command, interrupted once, did not write exactly one result per started hit (sequence numbers 0..n-1, every request the server saw)",
              252: "the attack command, interrupted while requests were still in flight, ended without waiting for them"},
@@ -328,9 +329,9 @@ reg("C02", runner="sync", needs_cli=True, rule=_ATTACK_RULE, diffs=_ATTACK_DIFF,
     level_text="seqs_exact, close_after_all, close_at_most_once, ends_cleanly_progress/terminates/final, stop_exactly_one(+_when_ended), stop_once_flag_exactly_one are proved in Coq as invariants over every label sequence of an executable LTS of Attack/attack/hit/Stop (all interleavings, any length, any configuration with max-workers >= 1); the LTS is tied to the code by trace acceptance: scripted real attacks under synctest must be runs of the model (verified-by-construction search over model states), and the property's clauses are also decided directly on every observed trace.",
     technique="Coq inductive invariants over an LTS (all schedules) + trace acceptance of real runs under synctest",
     timeout={"quick": 900, "thorough": 3000})
-reg("C03", runner="sync", rule=_ATTACK_RULE, diffs=_ATTACK_DIFF,
+reg("C03", runner="sync", needs_cli=True, rule=_ATTACK_RULE, diffs=_ATTACK_DIFF,
     clauses={301: "more hits started-and-not-consumed than max-workers", 302: "a released hit did not start although fewer than max-workers were busy"},
-    assumptions=_ATTACK_ASSUME, trusted_base=_ATTACK_TB,
+    assumptions=_ATTACK_ASSUME + ["six runs of the real `vegeta attack -workers=1 -max-workers=3|4 [-max-connections=1|2]` at 50/s against four hosts that answer after 300 ms: the number of requests in flight at the hosts must reach max-workers (grow on demand; one less is tolerated, the peak is sampled at the hosts) and never exceed it"], trusted_base=_ATTACK_TB,
     level_text="inflight_le_max, free_capacity_used and busy_then_next_consume are proved in Coq over every reachable state of the attack LTS (all interleavings, all (workers, max-workers) with max >= 1); tie by trace acceptance of scripted real attacks under synctest, clauses also decided on every snapshot.",
     technique="Coq inductive invariants over an LTS + trace acceptance under synctest",
     timeout={"quick": 900, "thorough": 3000})
